@@ -371,15 +371,19 @@ Let vs1 := vs ++ ei_vals (g_edge g e).
 Lemma rnd_none_unfold :
   rnd (S f) stack n (s, vs) =
   match visit_all visit (ins_of s2 e) (s2, vs1) with
-  | SOk (s3, vs3) => after_inputs g w visit e (es_deps_loaded (st_edge s e)) s3 vs3
+  | SOk (s3, vs3) =>
+    after_inputs g w visit e (es_deps_loaded (st_edge s e))
+                 (es_deps_loaded (st_edge s e) && es_deps_missing (st_edge s e))
+                 (es_deps_loaded (st_edge s e) && existsb (fun o => ns_dirty (st_node s o)) (edge_outs g e))
+                 s3 vs3
   | err => err
   end.
 Proof.
   cbn [recompute_node_dirty]. rewrite Hprod, Hnone. reflexivity.
 Qed.
 
-Lemma after_inputs_ok was_loaded s3 vs3 s' vs' :
-  after_inputs g w visit e was_loaded s3 vs3 = SOk (s', vs') ->
+Lemma after_inputs_ok was_loaded rm rd s3 vs3 s' vs' :
+  after_inputs g w visit e was_loaded rm rd s3 vs3 = SOk (s', vs') ->
   exists s5 new_ins s6 s7 s8 d,
     local e s3 s5 /\ deps_step e s5 s6 new_ins /\
     visit_all visit new_ins (s6, vs3) = SOk (s7, vs') /\
@@ -399,7 +403,8 @@ Proof.
     split; [apply (local_trans e s3 s5 sX); assumption|].
     split; [apply deps_step_nil|]. split; [reflexivity|]. split; [apply local_refl|reflexivity]. }
   destruct was_loaded.
-  - intros H; inversion H; subst. apply Simple. apply local_refl.
+  - intros H; inversion H; subst. apply Simple.
+    destruct rm; [apply local_set_deps_missing|apply local_refl].
   - destruct dirty1.
     + destruct (load_deps_try g w s5 e); intros H; inversion H; subst.
       * apply Simple. apply local_refl.
@@ -417,8 +422,8 @@ Proof.
         split; [exact Hv|]. split; [eapply local_eval_inputs; exact He2|reflexivity].
 Qed.
 
-Lemma after_inputs_err was_loaded s3 vs3 r :
-  after_inputs g w visit e was_loaded s3 vs3 = r -> is_err r ->
+Lemma after_inputs_err was_loaded rm rd s3 vs3 r :
+  after_inputs g w visit e was_loaded rm rd s3 vs3 = r -> is_err r ->
   (exists s5 new_ins s6, local e s3 s5 /\ deps_step e s5 s6 new_ins /\
                          visit_all visit new_ins (s6, vs3) = r) \/
   r = SLoadErr e.
@@ -459,7 +464,7 @@ Lemma rnd_none_ok s' vs' :
 Proof.
   rewrite rnd_none_unfold.
   destruct (visit_all visit (ins_of s2 e) (s2, vs1)) as [[s3 vs3]|p|e'|] eqn:Hv; try discriminate.
-  intros H. destruct (after_inputs_ok _ s3 vs3 s' vs' H) as [s5 [new_ins [s6 [s7 [s8 [d Hd]]]]]].
+  intros H. destruct (after_inputs_ok _ _ _ s3 vs3 s' vs' H) as [s5 [new_ins [s6 [s7 [s8 [d Hd]]]]]].
   exists s3, vs3, s5, new_ins, s6, s7, s8, d. split; [reflexivity|exact Hd].
 Qed.
 
@@ -473,7 +478,7 @@ Lemma rnd_none_err r :
 Proof.
   rewrite rnd_none_unfold.
   destruct (visit_all visit (ins_of s2 e) (s2, vs1)) as [[s3 vs3]|p|e'|] eqn:Hv.
-  - intros H Hr. destruct (after_inputs_err _ s3 vs3 r H Hr) as [[s5 [new_ins [s6 Hd]]]|Hd].
+  - intros H Hr. destruct (after_inputs_err _ _ _ s3 vs3 r H Hr) as [[s5 [new_ins [s6 Hd]]]|Hd].
     + right; left. exists s3, vs3, s5, new_ins, s6. split; [reflexivity|exact Hd].
     + right; right. exact Hd.
   - intros H _. left. exact H.
@@ -2148,7 +2153,9 @@ Definition SInv (s : sstate) : Prop :=
   (forall n, node_final s n -> node_ok s n) /\
   (forall n e, g_producer g n = Some e -> mark_of s e = VisitNone -> nd s n = init_nstate) /\
   (forall e, mark_of s e = VisitNone ->
-             es_deps_loaded (st_edge s e) = false /\ ins_of s e = ei_ins (g_edge g e)).
+             es_deps_loaded (st_edge s e) = false /\ ins_of s e = ei_ins (g_edge g e)) /\
+  (forall e, mark_of s e = VisitDone ->
+             own_dirty g w e \/ incl (valid_deps g w e) (ins_of s e)).
 
 Definition settled (s : sstate) (n : node) : Prop :=
   match g_producer g n with
@@ -2233,7 +2240,9 @@ Qed.
 Lemma SInv_lstep e a b :
   SInv a -> lstep e a b -> mark_of a e <> VisitDone -> mark_of b e = VisitInStack -> SInv b.
 Proof.
-  intros [S1 [S2 S3]] [L1 L2] Ma Mb. split; [|split].
+  intros [S1 [S2 [S3 S4]]] [L1 L2] Ma Mb. split; [|split; [|split]].
+  4:{ intros e' Hm. assert (Hne : e' <> e) by (intros ->; congruence).
+      rewrite (L1 e' Hne) in *. apply S4. exact Hm. }
   - intros n Hf. unfold node_final in Hf. destruct (g_producer g n) as [e'|] eqn:Hp.
     + assert (Hne : e' <> e) by (intros ->; congruence).
       assert (Hno : ~ In n (edge_outs g e)) by (intros Hin; rewrite (wf_out_prod e n Hin) in Hp; congruence).
@@ -2251,13 +2260,16 @@ Qed.
 Lemma SInv_finish e a d :
   SInv a -> mark_of a e = VisitInStack ->
   (forall o, In o (edge_outs g e) -> node_ok (finish_edge g a e d) o) ->
+  (own_dirty g w e \/ incl (valid_deps g w e) (ins_of a e)) ->
   SInv (finish_edge g a e d).
 Proof.
-  intros [S1 [S2 S3]] Ma Hout.
+  intros [S1 [S2 [S3 S4]]] Ma Hout Hown.
   destruct (finish_edge_props g e a d) as [A9 [M9 I9]].
   destruct (st_node_finish_edge e a d) as [_ [N9 _]].
   set (b := finish_edge g a e d) in *.
-  split; [|split].
+  split; [|split; [|split]].
+  4:{ intros e' Hm. destruct (Nat.eq_dec e' e) as [->|Hne]; [rewrite I9; exact Hown|].
+      rewrite (A9 e' Hne) in *. apply S4. exact Hm. }
   - intros n Hf. unfold node_final in Hf. destruct (g_producer g n) as [e'|] eqn:Hp.
     + destruct (Nat.eq_dec e' e) as [->|Hne]; [apply Hout; apply wf_prod_out; exact Hp|].
       assert (Hno : ~ In n (edge_outs g e)) by (intros Hin; rewrite (wf_out_prod e n Hin) in Hp; congruence).
@@ -2399,9 +2411,10 @@ Qed.
 Lemma exit_dirty a :
   SInv a -> mark_of a e = VisitInStack ->
   (forall o, In o (edge_outs g e) -> must_dirty g w o) ->
+  (own_dirty g w e \/ incl (valid_deps g w e) (ins_of a e)) ->
   SInv (finish_edge g a e true).
 Proof.
-  intros HS Ma Hmd. apply (SInv_finish e a true HS Ma).
+  intros HS Ma Hmd Hown. apply (SInv_finish e a true HS Ma); [|exact Hown].
   intros o Ho. destruct (st_node_finish_edge e a true) as [_ [_ [_ D]]].
   pose proof (D eq_refl o Ho) as Hd. split.
   - split; [intros _; apply Hmd; exact Ho|intros _; exact Hd].
@@ -2413,9 +2426,10 @@ Lemma exit_clean a :
   (forall o, In o (edge_outs g e) ->
              ns_dirty (nd a o) = false /\ ~ must_dirty g w o /\
              forall x, x < ns_mtime (nd a o) <-> newer_than g w x o) ->
+  (own_dirty g w e \/ incl (valid_deps g w e) (ins_of a e)) ->
   SInv (finish_edge g a e false).
 Proof.
-  intros HS Ma Hout. apply (SInv_finish e a false HS Ma).
+  intros HS Ma Hout Hown. apply (SInv_finish e a false HS Ma); [|exact Hown].
   intros o Ho. destruct (st_node_finish_edge e a false) as [_ [_ [C _]]].
   unfold node_ok. rewrite (C eq_refl o). destruct (Hout o Ho) as [Hd [Hn Hx]]. split.
   - rewrite Hd. split; [discriminate|intros H; contradiction].
@@ -2468,9 +2482,10 @@ Qed.
 Lemma finish_dirty s3 a :
   SInv a -> krel s3 a -> mark_of a e = VisitInStack ->
   (forall o, In o (edge_outs g e) -> must_dirty g w o) ->
+  (own_dirty g w e \/ incl (valid_deps g w e) (ins_of a e)) ->
   SInv (finish_edge g a e true) /\ krel s3 (finish_edge g a e true).
 Proof.
-  intros HS K Ma Hmd. split; [apply exit_dirty; assumption|].
+  intros HS K Ma Hmd Hown. split; [apply exit_dirty; assumption|].
   apply (krel_trans s3 a); [exact K|]. apply krel_lstep, lstep_finish.
 Qed.
 
@@ -2479,9 +2494,10 @@ Lemma finish_clean s3 a :
   (forall o, In o (edge_outs g e) ->
              ns_dirty (nd a o) = false /\ ~ must_dirty g w o /\
              forall x, x < ns_mtime (nd a o) <-> newer_than g w x o) ->
+  (own_dirty g w e \/ incl (valid_deps g w e) (ins_of a e)) ->
   SInv (finish_edge g a e false) /\ krel s3 (finish_edge g a e false).
 Proof.
-  intros HS K Ma Hout. split; [apply exit_clean; assumption|].
+  intros HS K Ma Hout Hown. split; [apply exit_clean; assumption|].
   apply (krel_trans s3 a); [exact K|]. apply krel_lstep, lstep_finish.
 Qed.
 
@@ -2490,8 +2506,8 @@ Proof.
   intros [_ [H _]]. unfold n_exists. rewrite H. destruct (Z.eqb_spec (w_mtime w o) 0); split; congruence.
 Qed.
 
-Lemma after_inputs_spec s3 vs3 s' vs' :
-  after_inputs g w visit e false s3 vs3 = SOk (s', vs') ->
+Lemma after_inputs_spec rm rd s3 vs3 s' vs' :
+  after_inputs g w visit e false rm rd s3 vs3 = SOk (s', vs') ->
   SInv s3 -> mark_of s3 e = VisitInStack -> ins_of s3 e = ei_ins (g_edge g e) ->
   (forall i, In i (ei_ins (g_edge g e)) -> node_final s3 i) ->
   (forall o, In o (edge_outs g e) -> statted s3 o) ->
@@ -2535,12 +2551,14 @@ Proof.
     assert (Hmd : forall o, In o (edge_outs g e) -> must_dirty g w o).
     { intros o Ho. destruct (proj1 HD0 eq_refl) as [i [Hi Hd]].
       apply (md_input g w o e i); [apply wf_out_prod; exact Ho|apply Hnonoo_spec; exact Hi|exact Hd]. }
+    assert (Hown : forall a, own_dirty g w e \/ incl (valid_deps g w e) (ins_of a e)).
+    { intros a. left. left. apply HD0. reflexivity. }
     cbv iota in H. destruct (load_deps_try g w s4 e); inversion H; subst s' vs'.
-    + apply finish_dirty; assumption.
+    + apply finish_dirty; [assumption|assumption|assumption|assumption|apply Hown].
     + pose proof (local_set_deps_missing e s4 true) as Lm.
       assert (LSm : lstep e s4 (set_deps_missing s4 e true)) by (apply lstep_of_local; [exact Lm|reflexivity]).
       assert (Mm : mark_of (set_deps_missing s4 e true) e = VisitInStack) by (rewrite (proj1 (proj2 Lm)); exact M4).
-      apply finish_dirty; [apply (SInv_lstep e s4 _ HS4 LSm); [rewrite M4; discriminate|exact Mm]| |exact Mm|exact Hmd].
+      apply finish_dirty; [apply (SInv_lstep e s4 _ HS4 LSm); [rewrite M4; discriminate|exact Mm]| |exact Mm|exact Hmd|apply Hown].
       apply (krel_trans s3 s4); [exact K34|apply krel_lstep; exact LSm].
   - (* all manifest inputs are clean *)
     specialize (HN0 eq_refl). cbv iota in H.
@@ -2567,12 +2585,15 @@ Proof.
         assert (Hmd : forall o, In o (edge_outs g e) -> must_dirty g w o).
         { intros o Hoo. apply (md_phony g w o e o'); [apply wf_out_prod; exact Hoo|exact Hph|exact Hi0|exact Hv0|exact Ho'|].
           apply (statted_missing s4 o' (T4 o' Ho')). exact Hx'. }
+        assert (Hown : forall a, own_dirty g w e \/ incl (valid_deps g w e) (ins_of a e)).
+        { intros a. left. right. left. split; [exact Hph|]. split; [exact Hi0|]. split; [exact Hv0|].
+          exists o'. split; [exact Ho'|]. apply (statted_missing s4 o' (T4 o' Ho')). exact Hx'. }
         destruct (load_deps_try g w s5 e); inversion H; subst s' vs'.
-        -- apply finish_dirty; assumption.
+        -- apply finish_dirty; [assumption|assumption|assumption|assumption|apply Hown].
         -- pose proof (local_set_deps_missing e s5 true) as Lm.
            assert (LSm : lstep e s5 (set_deps_missing s5 e true)) by (apply lstep_of_local; [exact Lm|reflexivity]).
            assert (Mm : mark_of (set_deps_missing s5 e true) e = VisitInStack) by (rewrite (proj1 (proj2 Lm)); exact M5).
-           apply finish_dirty; [apply (SInv_lstep e s5 _ HS5 LSm); [rewrite M5; discriminate|exact Mm]| |exact Mm|exact Hmd].
+           apply finish_dirty; [apply (SInv_lstep e s5 _ HS5 LSm); [rewrite M5; discriminate|exact Mm]| |exact Mm|exact Hmd|apply Hown].
            apply (krel_trans s3 s5); [exact K35|apply krel_lstep; exact LSm].
       * (* clean: missing outputs take the time of the newest input *)
         rewrite (load_deps_none s5 Hdk) in H. cbn [visit_all eval_inputs] in H.
@@ -2582,7 +2603,7 @@ Proof.
         assert (LS56 : lstep e s5 s6) by (split; [exact A6|intros n _; reflexivity]).
         assert (M6 : mark_of s6 e = VisitInStack) by (rewrite Mk6; exact M5).
         assert (HS6 : SInv s6) by (apply (SInv_lstep e s5 s6 HS5 LS56); [rewrite M5; discriminate|exact M6]).
-        apply finish_clean; [exact HS6|apply (krel_trans s3 s5 s6 K35); apply krel_lstep; exact LS56|exact M6|].
+        apply finish_clean; [exact HS6|apply (krel_trans s3 s5 s6 K35); apply krel_lstep; exact LS56|exact M6| |right; unfold valid_deps; rewrite Hsl; apply incl_nil_l].
         intros o Hoo. change (nd s6 o) with (nd s5 o).
         destruct (T4 o Hoo) as [Tm [Te Td]].
         split; [rewrite (proj1 (DX5 o)); exact Td|]. split.
@@ -2626,12 +2647,14 @@ Proof.
         { intros o Ho. destruct (proj1 Hd1 eq_refl) as [o' [Ho' Hr]].
           apply (md_self g w o e o'); [apply wf_out_prod; exact Ho|exact Hph|exact Ho'|].
           destruct Hr as [Hb|Ht]; [left; exact Hb|right]. revert Ht. apply time_reason_mono. exact HN0N. }
+        assert (Hown : forall a, own_dirty g w e \/ incl (valid_deps g w e) (ins_of a e)).
+        { intros a. left. right. right. split; [exact Hph|]. apply (proj1 Hd1 eq_refl). }
         destruct (load_deps_try g w s4 e); inversion H; subst s' vs'.
-        -- apply finish_dirty; assumption.
+        -- apply finish_dirty; [assumption|assumption|assumption|assumption|apply Hown].
         -- pose proof (local_set_deps_missing e s4 true) as Lm.
            assert (LSm : lstep e s4 (set_deps_missing s4 e true)) by (apply lstep_of_local; [exact Lm|reflexivity]).
            assert (Mm : mark_of (set_deps_missing s4 e true) e = VisitInStack) by (rewrite (proj1 (proj2 Lm)); exact M4).
-           apply finish_dirty; [apply (SInv_lstep e s4 _ HS4 LSm); [rewrite M4; discriminate|exact Mm]| |exact Mm|exact Hmd].
+           apply finish_dirty; [apply (SInv_lstep e s4 _ HS4 LSm); [rewrite M4; discriminate|exact Mm]| |exact Mm|exact Hmd|apply Hown].
            apply (krel_trans s3 s4); [exact K34|apply krel_lstep; exact LSm].
       * (* clean so far: the deps decide *)
         assert (Hnd1 : forall o, In o (edge_outs g e) -> ~ out_reason g w Nman e o).
@@ -2642,7 +2665,7 @@ Proof.
            pose proof (local_set_deps_missing e s4 true) as Lm.
            assert (LSm : lstep e s4 (set_deps_missing s4 e true)) by (apply lstep_of_local; [exact Lm|reflexivity]).
            assert (Mm : mark_of (set_deps_missing s4 e true) e = VisitInStack) by (rewrite (proj1 (proj2 Lm)); exact M4).
-           apply finish_dirty; [apply (SInv_lstep e s4 _ HS4 LSm); [rewrite M4; discriminate|exact Mm]| |exact Mm|].
+           apply finish_dirty; [apply (SInv_lstep e s4 _ HS4 LSm); [rewrite M4; discriminate|exact Mm]| |exact Mm| |right; unfold valid_deps; rewrite Hsl; apply incl_nil_l].
            ++ apply (krel_trans s3 s4); [exact K34|apply krel_lstep; exact LSm].
            ++ intros o Ho. apply (md_deps g w o e); [apply wf_out_prod; exact Ho|exact Hsl].
         -- discriminate.
@@ -2726,26 +2749,28 @@ Proof.
              - intros x. rewrite Tm. symmetry. apply newer_file. exact Hnz. }
            assert (Hpw8 : D2 = false -> forall x, lt_opt x (mri_mtime s8 mri2) <-> N x).
            { intros HD x. rewrite lt_opt_mri. unfold lt_mri. rewrite N8. apply (HN2 HD x). }
+           assert (Hown8 : own_dirty g w e \/ incl (valid_deps g w e) (ins_of s8 e)).
+           { right. rewrite Hvd, (proj2 (proj2 L78)), E67, Ik6. intros x Hx. apply in_splice. right; exact Hx. }
            inversion H; subst s' vs'. clear H.
            destruct D2; cbn [negb andb].
            ++ (* a recorded dep is dirty *)
-              apply finish_dirty; [exact HS8|exact K38|exact M8|].
+              apply finish_dirty; [exact HS8|exact K38|exact M8| |exact Hown8].
               intros o Ho. destruct (proj1 HD2 eq_refl) as [i [Hi Hd]].
               apply (md_input g w o e i); [apply wf_out_prod; exact Ho| |exact Hd].
               unfold spec_ins. rewrite Hvd. apply in_or_app. right; exact Hi.
            ++ destruct (opt_node_eqb mri mri2) eqn:Heq; cbn [negb].
               ** (* the newest input is still the same *)
-                 apply finish_clean; [exact HS8|exact K38|exact M8|]. apply Hcleanout; [|reflexivity].
+                 apply finish_clean; [exact HS8|exact K38|exact M8| |exact Hown8]. apply Hcleanout; [|reflexivity].
                  intros o' Ho' Ht. apply (Hnd1 o' Ho'). right. revert Ht. apply time_reason_iff.
                  intros x. rewrite <- (HN2 eq_refl x), <- (opt_node_eqb_eq _ _ Heq). symmetry. apply Hmri7.
               ** destruct (outputs_dirty_depfile g w e mri2 s8) eqn:Hdf.
-                 --- apply finish_dirty; [exact HS8|exact K38|exact M8|].
+                 --- apply finish_dirty; [exact HS8|exact K38|exact M8| |exact Hown8].
                      intros o Ho. unfold outputs_dirty_depfile in Hdf. apply existsb_exists in Hdf.
                      destruct Hdf as [o' [Ho' Ha]].
                      apply (oda_again_spec e o' _ s8 (proj1 (T8 o' Ho'))) in Ha.
                      apply (md_self g w o e o'); [apply wf_out_prod; exact Ho|exact Hph|exact Ho'|].
                      right. apply (proj1 (time_reason_iff (fun x => lt_opt x (mri_mtime s8 mri2)) N e o' (Hpw8 eq_refl)) Ha).
-                 --- apply finish_clean; [exact HS8|exact K38|exact M8|]. apply Hcleanout; [|reflexivity].
+                 --- apply finish_clean; [exact HS8|exact K38|exact M8| |exact Hown8]. apply Hcleanout; [|reflexivity].
                      intros o' Ho' Ht.
                      assert (Hx : outputs_dirty_depfile g w e mri2 s8 = true); [|congruence].
                      unfold outputs_dirty_depfile. apply existsb_exists. exists o'. split; [exact Ho'|].
@@ -2824,7 +2849,7 @@ Proof.
   { intros o Ho. unfold statted. rewrite (proj2 V23 o); [apply T2; exact Ho|].
     unfold settled. rewrite (wf_out_prod e o Ho), M2. discriminate. }
   rewrite I2, Hins in F3.
-  destruct (after_inputs_spec visit Hvisit e s3 vs3 s' vs' H HS3 M3 I3 F3 T3) as [HS' K3'].
+  destruct (after_inputs_spec visit Hvisit e _ _ s3 vs3 s' vs' H HS3 M3 I3 F3 T3) as [HS' K3'].
   split; [exact HS'|]. split.
   - split; [exact Eext|]. intros n' Hs.
     assert (Hno : ~ In n' (edge_outs g e)).
